@@ -9,7 +9,7 @@ from props.c13 import R, LOGDIR, BIG, rec_bytes, _collect, decode_read
 HEAD = '/state/head.json'
 
 
-def scenario_factory(nops, modes, planted=None, max_restarts=2, ops=None, prune=False):
+def scenario_factory(nops, modes, planted=None, max_restarts=2, ops=None, prune=False, crash_points=5):
     OPS = ops or ['write', 'read', 'save', 'save_crash', 'crash_restart', 'close_restart']
     def scenario(e):
         mode = modes[e.choice('mode', len(modes))] if len(modes) > 1 else modes[0]
@@ -84,7 +84,7 @@ def scenario_factory(nops, modes, planted=None, max_restarts=2, ops=None, prune=
                 if nxt is None or restarts >= max_restarts: continue
                 # crash instead of the j-th file-system mutation of this save.  Today a save has three (create temp, write, rename); five are offered so that a
                 # step added to the save is a crash point too.  If the save has fewer than j+1 mutations it simply completes (= a successful save).
-                j = e.choice(f'crash_at{step}', 5)
+                j = e.choice(f'crash_at{step}', crash_points)
                 fs.crash_at = fs.nmut + j
                 fs.crash_partial = lambda: e.choice(f'partial{step}', 3) * 7          # torn temp content: 0, 7 or 14 bytes reached the file
                 try:
@@ -148,8 +148,8 @@ def harnesses(tier):
         hs.append(prune_h('c14.head_prune', 6, ['write', 'read', 'save', 'crash_restart'], 1500))
         hs.append(prune_h('c14.head_prune.save_crash', 5, ['write', 'read', 'save', 'save_crash', 'crash_restart'], 1500))
     if not q:
-        hs.append(Harness('c14.head_crash.6ops', scenario_factory(6, ['txt'], ops=['write', 'read', 'save_crash', 'crash_restart']),
-                          bounds={'operations': 6, 'op kinds': 'write read save-with-crash crash-restart', 'restarts': '<=2'}, functions=fn, stubs=stubs, assumptions=assume, budget_s=900))
+        hs.append(Harness('c14.head_crash.6ops', scenario_factory(6, ['txt'], ops=['write', 'read', 'save_crash', 'crash_restart'], crash_points=4),
+                          bounds={'operations': 6, 'op kinds': 'write read save-with-crash(first 4 mutations) crash-restart', 'restarts': '<=2'}, functions=fn, stubs=stubs, assumptions=assume, budget_s=1800))
     return hs
 
 
